@@ -6,6 +6,9 @@ classinfo("CountingBloomFilter", "probables.blooms.countingbloom",
           dict(BLOOM_FIELDS, _bloom="array:I", _filepath="any"), bases=["BloomFilter"], inv="inv_cbloom(self)",
           consts={"_typecode": "I", "_bits_per_elm": 1.0})
 
+from pyvc.api import CONTRACTS  # noqa: E402
+CONTRACTS["BloomFilter.hashes"].contexts.append("CountingBloomFilter")
+
 _H = [("inv", "inv_cbloom(self)"), ("exactly_number_hashes_values", "len(hashes) >= self._number_hashes")]
 
 contract("CountingBloomFilter.add_alt", contexts=["CountingBloomFilter"], properties=["C08", "C16", "C14", "C12"],
